@@ -123,3 +123,17 @@ Proof.
                 | None => False end) by (vm_compute; discriminate).
     rewrite E in X. auto.
 Qed.
+
+(* ---------------- the case decoder of Run.v agrees with a structured literal ---------------- *)
+From CJ Require Import C09.Run.
+Example ex_decoder :
+  dec_case [0; 1; 2;   0; 0; 1; 1; 0; 2; 0; 1; 1; 0; 1; 0;   2; 0;   1; 2;
+            0; 0; 255; 2;  1; 4; 1;  0;
+            1; 0; 1; 11;   1; 4; 1;  1;  2; 0; 0; 1;
+            3; 0; 1; 4; 4; 0]%N
+  = Some (false, true,
+          [TWorker (mkMsg 0 1 true false [false; true] [true; false] true false) W0; THandler 0 H0],
+          [0], [(Run 0 255, 2, [(Some 0, false, 1, false, true, false)], []);
+                (Age 0 660000000000%N, 11, [(Some 0, false, 1, false, true, false)], [(2, 0, 0, true)])],
+          (3, 0, 1, 4, 4%Z), 0).
+Proof. vm_compute. reflexivity. Qed.
